@@ -549,7 +549,9 @@ def fault_scenarios(tier):
             out.append(base)
             n = run_one(base)["points"]
             # an interruption BEFORE the fault (the failure must still reach the plan afterwards) and, thorough, anywhere
-            for p in (range(n + 1) if not quick else (range(2, 10) if mode != "raise" else ())):
+            # (quick: for a raising call also right AFTER it -- the error is then waiting on the response stack while the engine
+            #  pauses / suspends, rewinds and replays the call, which now succeeds: it must still reach the plan)
+            for p in (range(n + 1) if not quick else (range(2, 10) if mode != "raise" else (range(n + 1) if op in ("set", "read") else ()))):
                 out.append(with_inject(base, [{"at": p, "kind": "pause"}], ["resume"] * 3, f"pause@{p}"))
                 if not quick or p % 2 == 0:
                     out.append(with_inject(base, [{"at": p, "kind": "suspend", "arg": "f1"}, {"at": p + 2, "kind": "release", "arg": "f1"}],
@@ -595,6 +597,19 @@ def monitor_scenarios(tier):
                 if kind == "suspend":
                     inj.append({"at": q + 2, "kind": "release", "arg": "f1"})
                 out.append(with_inject(base, inj, ["resume"] * 3, f"{kind}@{p}+update@{q}"))
+    # histories within one call: an interruption BEFORE the signal is monitored (suspend/restore with nothing to do), then the
+    # monitor starts, then a second interruption -- during which updates must not be reported, and after which exactly once
+    for kind in ("pause", "suspend"):
+        for q in range(6, n + 1, 1 if tier != "quick" else 3):
+            inj = [{"at": 1, "kind": kind, "arg": "f1"}]
+            if kind == "suspend":
+                inj += [{"at": 3, "kind": "release", "arg": "f1"}, {"at": q, "kind": "suspend", "arg": "f2"},
+                        {"at": q + 1, "kind": "update", "arg": "mon1"}, {"at": q + 3, "kind": "release", "arg": "f2"},
+                        {"at": q + 6, "kind": "update", "arg": "mon1"}]
+                out.append(with_inject(base, inj, ["resume"] * 3, f"suspend@1,then-suspend@{q}+updates"))
+            else:
+                inj += [{"at": q, "kind": "pause"}, {"at": q + 4, "kind": "update", "arg": "mon1"}]
+                out.append(with_inject(base, inj, ["resume", "update:mon1", "resume", "resume"], f"pause@1,then-pause@{q}+updates"))
     return out
 
 
